@@ -1824,6 +1824,51 @@ def _bool_buckets(node: ast.FunctionDef) -> bool:
     return False
 
 
+def _copy_takes_param_name(node: ast.FunctionDef) -> bool:
+    """`out = p.deepcopy()` (or deepcopy(p)) at the top level, `out` bound there only, the parameter `p` never re-bound and after that
+    statement only consulted for class look-ups (`type(p.hits)`, `p.hits.__class__`): the work is done on the copy under a new
+    name.  It is read as the re-binding `p = p.deepcopy()` — every rule identifies "the chart being built" by the parameter."""
+    params = [a.arg for a in node.args.posonlyargs + node.args.args + node.args.kwonlyargs]
+    stores = {}
+    for n in ast.walk(node):
+        if isinstance(n, ast.Name) and isinstance(n.ctx, (ast.Store, ast.Del)):
+            stores[n.id] = stores.get(n.id, 0) + 1
+    for i, st in enumerate(node.body):
+        if not (isinstance(st, ast.Assign) and len(st.targets) == 1 and isinstance(st.targets[0], ast.Name) and isinstance(st.value, ast.Call)):
+            continue
+        x, v = st.targets[0].id, st.value
+        src = None
+        if isinstance(v.func, ast.Attribute) and v.func.attr == "deepcopy" and isinstance(v.func.value, ast.Name) and not v.args:
+            src = v.func.value.id
+        elif ast.unparse(v.func) in ("deepcopy", "copy.deepcopy") and len(v.args) == 1 and isinstance(v.args[0], ast.Name):
+            src = v.args[0].id
+        if src not in params or stores.get(src) or stores.get(x) != 1 or x in params:
+            continue
+        # uses of the parameter after the copy: class look-ups only
+        parents = {}
+        for later in node.body[i + 1:]:
+            for a_ in ast.walk(later):
+                for ch in ast.iter_child_nodes(a_):
+                    parents[id(ch)] = a_
+        ok = True
+        for later in node.body[i + 1:]:
+            for n in ast.walk(later):
+                if isinstance(n, ast.Name) and n.id == src:
+                    att = parents.get(id(n))
+                    up = parents.get(id(att)) if isinstance(att, ast.Attribute) else None
+                    cls_lookup = (isinstance(up, ast.Call) and isinstance(up.func, ast.Name) and up.func.id == "type" and up.args and up.args[0] is att) or \
+                        (isinstance(up, ast.Attribute) and up.attr == "__class__")
+                    if not cls_lookup:
+                        ok = False
+        if not ok:
+            continue
+        for n in ast.walk(node):
+            if isinstance(n, ast.Name) and n.id == x:
+                n.id = src
+        return True
+    return False
+
+
 def _cond_iterables(node: ast.FunctionDef) -> bool:
     """`for v in (A if c else ())` — directly or through a local bound once and used only there — is `if c: for v in A`: a loop over
     nothing is no loop"""
@@ -2182,6 +2227,7 @@ def normalise(M, fn, subst: bool = False, guards: bool = False, keep=(), comps: 
         if not changed:
             break
     node = _MapUnbound().visit(node)
+    _copy_takes_param_name(node)
     for _ in range(3):
         if not _bool_buckets(node):
             break
